@@ -1041,3 +1041,90 @@ def interpreted_parser_guards(repo):
     decide("occupation-exceeds-basis", [("H2 with charge -4, RHF", A([H2], [-4])), ("H2 quintet, UHF", A([H2], [0], mult=[5], uhf=True)), ("batch [CH2O, H2 4-]", A([CH2O, H2], [0, -4]))],
            [("H2 2-, RHF", A([H2], [-2])), ("H2 triplet, UHF", A([H2], [0], mult=[3], uhf=True))], "charge/multiplicity pair that needs more occupied orbitals than the valence basis has")
     return out
+
+
+# ====================================================================================================================
+# COM-removal request and degrees of freedom, interpreted
+def interpreted_com_setup(repo):
+    """The part of Molecular_Dynamics_Basic.initialize that validates `remove_com` and fixes the number of constraints is interpreted (sa.npsym) for concrete requests, and
+    the three set_dof implementations are interpreted with a molecule of 5 real atoms.  Returns dict:
+       'requests': {label: ('raise', None) | ('ok', dict(do_remove_com, angular, stride, constraints))},
+       'dof': {(class, damp is set, constraints): n_dof}"""
+    import ast
+    import sympy as sp
+    from .loader import AnalysisError, norm, callee_attr
+    from .npsym import NpSym, _Frame, Raised
+    md = repo.mod("seqm/MolecularDynamics.py")
+    ini = md.func("Molecular_Dynamics_Basic.initialize")
+    first = [st for st in ast.walk(ini) if isinstance(st, ast.Assign) and any(norm(t) == "self.do_remove_com" for t in st.targets)]
+    last = [st for st in ast.walk(ini) if isinstance(st, ast.Expr) and isinstance(st.value, ast.Call) and callee_attr(st.value) == "set_dof"]
+    if len(first) != 1 or len(last) != 1:
+        raise AnalysisError("initialize: `self.do_remove_com = ...` / `self.set_dof(...)` not found exactly once")
+    blk, i0, i1 = _lca_block(md, ini, [first[0], last[0]])
+    params = [a.arg for a in ini.args.args]
+    if "remove_com" not in params:
+        raise AnalysisError("initialize: parameter remove_com not found")
+    requests = {"none": None, "linear": ("linear", 5), "angular": ("angular", 1), "upper-case with blanks": (" Angular ", 2), "unknown mode": ("spin", 1), "empty mode": ("", 1),
+                "both": ("linear angular", 1)}
+    out = {"requests": {}, "dof": {}}
+    for label, req in requests.items():
+        cap = {}
+
+        def set_dof(frame, molecule, constraints=sp.Integer(0)):
+            cap["constraints"] = constraints
+        selfns = types.SimpleNamespace(set_dof=set_dof, do_remove_com=None, remove_com_angular=None, remove_com_stride=None)
+        I = NpSym(repo)
+        fr = _Frame(I, md, {"self": selfns, "remove_com": req, "molecule": None})
+        try:
+            fr.block(blk[i0:i1 + 1])
+        except Raised:
+            out["requests"][label] = ("raise", None)
+            continue
+        out["requests"][label] = ("ok", {"do_remove_com": selfns.do_remove_com, "angular": selfns.remove_com_angular, "stride": selfns.remove_com_stride, "constraints": cap.get("constraints")})
+    for cls in ("Molecular_Dynamics_Basic", "Molecular_Dynamics_Langevin", "XL_BOMD"):
+        q = f"{cls}.set_dof"
+        if not md.has_func(q):
+            continue
+        for damp in (None, sp.Integer(50)):
+            for c in (sp.Integer(0), sp.Integer(3), sp.Integer(6)):
+                selfns = types.SimpleNamespace(damp=damp, n_dof=None)
+                np_ = __import__("numpy")
+                # a padded batch: 5 real atoms in molecules of padded size 7
+                spc = np_.array([[8, 6, 6, 1, 1, 0, 0], [7, 6, 1, 1, 1, 0, 0]])
+                mol = types.SimpleNamespace(num_atoms=np_.array([5, 5]), molsize=7, nmol=2, species=spc, coordinates=np_.full((2, 7, 3), sp.Integer(0), dtype=object),
+                                            mass=np_.where(spc[..., None] > 0, sp.Integer(12), sp.Integer(0)).astype(object), Z=spc[spc > 0])
+                NpSym(repo).call_function(md, md.func(q), [selfns, mol, c])
+                nd = selfns.n_dof
+                nd = nd.reshape(-1)[0] if hasattr(nd, "reshape") else nd
+                out["dof"][(cls, damp is not None, int(c))] = sp.nsimplify(nd)
+    return out
+
+
+def com_setup_verdicts(repo):
+    """(ok, message) per aspect, from interpreted_com_setup"""
+    r = interpreted_com_setup(repo)
+    req, dof = r["requests"], r["dof"]
+    v = {}
+    bad = [k for k in ("unknown mode", "empty mode", "both") if req[k][0] != "raise"]
+    good = [k for k in ("none", "linear", "angular", "upper-case with blanks") if req[k][0] != "ok"]
+    v["validation"] = (not bad and not good,
+                       "remove_com modes other than 'linear' / 'angular' (case and blanks ignored) are rejected, the documented ones accepted (interpreted requests)" if not bad and not good else
+                       (f"the COM-removal request `{bad[0]}` is accepted" if bad else f"the valid COM-removal request `{good[0]}` is rejected") + " (interpreted run of initialize)")
+    exp = {"none": (False, None, 0), "linear": (True, False, 3), "angular": (True, True, 6), "upper-case with blanks": (True, True, 6)}
+    wrong = []
+    for k, (do, ang, c) in exp.items():
+        if req[k][0] != "ok":
+            continue
+        g = req[k][1]
+        if bool(g["do_remove_com"]) != do or (do and bool(g["angular"]) != ang) or g["constraints"] is None or int(g["constraints"]) != c:
+            wrong.append(f"{k}: do_remove_com={g['do_remove_com']}, angular={g['angular']}, constraints={g['constraints']}")
+        if do and k == "linear" and int(g["stride"]) != 5:
+            wrong.append(f"{k}: stride {g['stride']}")
+    v["mode"] = (not wrong, "angular removal iff the mode is 'angular'; constraints 0 / 3 / 6 for none / linear / angular; stride stored" if not wrong else "COM setup: " + "; ".join(wrong[:2]))
+    wd = []
+    for (cls, damped, c), nd in sorted(dof.items()):
+        want = 15 - (0 if (cls == "Molecular_Dynamics_Langevin" or (cls == "XL_BOMD" and damped)) else c)
+        if nd != want:
+            wd.append(f"{cls}.set_dof(constraints={c}, damp {'set' if damped else 'None'}) gives n_dof = {nd} for 5 atoms, expected {want}")
+    v["dof"] = (not wd and len(dof) >= 12, "n_dof = 3 N - constraints; the Langevin thermostat ignores the constraints, XL-BOMD ignores them exactly when a damping time is set (interpreted)" if not wd else wd[0])
+    return v
